@@ -8,6 +8,7 @@ CONSTANTS
   OptSet <- OptsAbort
   AbortCancels = FALSE
   GenChecksCtx = FALSE
+  GenEofByIs = FALSE
   ResolverSame = TRUE
   ExcludedConsulted = TRUE
   Mut = "none"
